@@ -381,3 +381,29 @@ REG.contract(
     note="base case of the ring/dict invariant: a new LRU cache is empty, its ring is the sentinel alone (ghost order = [sentinel]), "
          "its limit is at least 1 and its counters are zero",
 )
+
+# ---- counters: readers and reset (the accounting clauses of get rely on these being faithful)
+_CB = T.obj("dns.resolver.CacheBase", raw=True, statistics=T.obj("dns.resolver.CacheStatistics"), lock=T.obj("_thread.LockType"))
+REG.contract("dns.resolver.CacheBase.hits", params={"self": _CB}, raises=[], returns=T.int,
+             ensures=["result == self.statistics.hits", "self.statistics.hits == old_self.statistics.hits and self.statistics.misses == old_self.statistics.misses"],
+             props=["C17"], note="hits() reads the hit counter and changes nothing")
+REG.contract("dns.resolver.CacheBase.misses", params={"self": _CB}, raises=[], returns=T.int,
+             ensures=["result == self.statistics.misses", "self.statistics.hits == old_self.statistics.hits and self.statistics.misses == old_self.statistics.misses"],
+             props=["C17"], note="misses() reads the miss counter and changes nothing")
+REG.contract("dns.resolver.CacheBase.reset_statistics", params={"self": _CB}, raises=[],
+             modifies={"self.statistics.hits": None, "self.statistics.misses": None},
+             ensures=["self.statistics.hits == 0 and self.statistics.misses == 0"],
+             props=["C17"], note="reset_statistics() zeroes both counters")
+REG.contract("dns.resolver.CacheBase.get_statistics_snapshot", params={"self": _CB}, raises=[],
+             returns=T.obj("dns.resolver.CacheStatistics"),
+             ensures=["result.hits == self.statistics.hits and result.misses == self.statistics.misses", "not (result is self.statistics)",
+                      "self.statistics.hits == old_self.statistics.hits and self.statistics.misses == old_self.statistics.misses"],
+             props=["C17"], note="the snapshot is a separate object holding both counters as they are")
+REG.contract(
+    "dns.resolver.LRUCache.get_hits_for_key",
+    params={"self": T.obj("dns.resolver.LRUCache", raw=True, data=T.map_of(T.int, T.ref(NODE)), lock=T.obj("_thread.LockType")), "key": T.int},
+    raises=[], returns=T.int,
+    ensures=["result == (self.data[key].hits if ((key in self.data) and self.data[key].value.expiration > time_last) else 0)"],
+    props=["C17"],
+    note="get_hits_for_key: the node's hit count while the answer is unexpired, 0 otherwise; changes nothing",
+)
